@@ -540,6 +540,13 @@ pub fn explore<S>(cfg: &Config, build: &(dyn Fn(&mut World) -> S + Sync), check:
 /// Replays one choice vector twice and asserts identical observations (ownership of nondeterminism).
 pub fn replay_twice<S>(build: &(dyn Fn(&mut World) -> S + Sync), choices: &[usize], horizon: usize, obs: &dyn Fn(&Exec<S>) -> String) -> Result<(), String> {
     let st = Stats::default();
+    // the choice vector may not denote a schedule of this scenario at all: that is not a finding
+    {
+        let rt = new_rt();
+        if let Err(e) = rt.block_on(run_one(build, choices, &[], horizon)) {
+            return Err(format!("replay divergence (not a schedule): {e}"));
+        }
+    }
     let a = execute(build, choices, &[], horizon, &st);
     let b = execute(build, choices, &a.points.iter().map(|p| p.label.clone()).collect::<Vec<_>>(), horizon, &st);
     let (oa, ob) = (obs(&a), obs(&b));
